@@ -23,6 +23,10 @@ def MetaCfg.orElse (own cfg : MetaCfg) : MetaCfg :=
     tagKey := own.tagKey <|> cfg.tagKey
     autoAssignTags := own.autoAssignTags <|> cfg.autoAssignTags
     recursiveClasses := own.recursiveClasses <|> cfg.recursiveClasses
+    v1 := own.v1 <|> cfg.v1
+    v1KeyCase := own.v1KeyCase <|> cfg.v1KeyCase
+    v1OnUnknown := own.v1OnUnknown <|> cfg.v1OnUnknown
+    v1Unsafe := own.v1Unsafe <|> cfg.v1Unsafe
     tag := own.tag
     recursive := own.recursive }
 
@@ -221,7 +225,9 @@ def DumpHook.ofName (n : String) : DumpHook :=
 /-- the hook `_asdict_inner` selects for a value, given the registration table extracted from the source -/
 def hookFor (v : PyVal) : DumpHook := DumpHook.ofName (chooseHook Generated.dumpHooks v.mro)
 
-def isoZ (tok : S) : S := replaceFirst "+00:00".toList ['Z'] tok
+/-- `s[:-6] + 'Z' if s.endswith('+00:00') else s` (since fix 15b2b6f: only a *trailing* UTC offset is written as Z) -/
+def isoZ (tok : S) : S :=
+  if "+00:00".toList.isSuffixOf tok then tok.take (tok.length - 6) ++ ['Z'] else tok
 
 /-- the dump key of a field: explicit alias when `all=True`, else the class's key transform -/
 def dumpKey (eff : MetaCfg) (fi : FieldInfo) : Except DErr S :=
